@@ -26,10 +26,11 @@ NewlyExecuted(pre, post) == { d \in Range(post) : Executed(d) /\ ~(\E p \in Rang
 TotalVotes(ds, d) == LET ids == Range(d.prev) \cup {d.id}
                          f == [i \in ids |-> IF \E x \in Range(ds) : x.id = i THEN Counts(CHOOSE x \in Range(ds) : x.id = i) ELSE Zero]
                      IN NSum(f, ids)
-ExecBurn(ds, d) == IF IsZero(TotalVotes(ds, d)) THEN d.burn ELSE d.burn // N(2)
-BurnOf(pre, post) == LET S == NewlyExecuted(pre, post)
-                         f == [d \in S |-> ExecBurn(post, d)]
-                     IN NSum(f, S)
+\* a dispute execution burns either half of its burn amount (the other half is the voters' pot) or all of it
+\* (nobody voted); WHICH of the two applies is decided by the settlement spec (C13), not here
+BurnChoices(pre, post) ==
+  LET NE == NewlyExecuted(pre, post) IN
+  { NSum([d \in NE |-> IF d \in S THEN d.burn ELSE d.burn // N(2)], NE) : S \in SUBSET NE }
 
 ClaimTotal(e) == NSumSeq([i \in DOMAIN e.claims |-> e.claims[i].dec.amount // Pow10(12)])
 
@@ -42,8 +43,7 @@ Check(e) ==
   \cup
   (IF e.ev = "BeginBlock" THEN
        (IF e.ok THEN
-          LET burn == BurnOf(disp, e.post.dispute.disputes) IN
-          (IF LBegin(e.dtn, burn) THEN {} ELSE {"MintAndBurnExact"})
+          (IF \E burn \in BurnChoices(disp, e.post.dispute.disputes) : LBegin(e.dtn, burn) THEN {} ELSE {"MintAndBurnExact"})
        ELSE {})
    ELSE IF ~e.ok THEN (IF b = bank THEN {} ELSE {"RejectedMessageLeavesBankUntouched"})
    ELSE IF e.ev = "EndBlock" THEN (IF LPayout(b.bal.tbr) THEN {} ELSE {"EndBlockKeepsSupply"})
